@@ -24,6 +24,76 @@ fn serialise_cmd(c: &Cmd) -> Cmd {
     n
 }
 
+/// The shape in which job tokens are given up, taken by others and "cheated"
+/// (C08's cheat-prone family): several scripts share one slow target while
+/// other jobs hold the remaining tokens for long, with log capture on.  The
+/// exit status must still be the serial one.
+fn cheat_prone_case(rng: &mut Rng, seed: u64) -> Case {
+    let mut rules: Vec<(String, Rule)> = Vec::new();
+    let nshare = rng.range(2, 3) as usize;
+    let nlong = rng.range(1, 3) as usize;
+    let mut deps = Vec::new();
+    rules.push((
+        "x.do".into(),
+        Rule {
+            version: 0,
+            stmts: vec![Stmt::IfChange(vec!["s0".into()]), Stmt::Work(rng.range(5, 80))],
+        },
+    ));
+    for i in 0..nshare {
+        let n = format!("a{}", i);
+        let mut st = vec![Stmt::IfChange(vec!["x".into()])];
+        if rng.chance(1, 2) {
+            st.push(Stmt::Work(rng.range(1, 30)));
+        }
+        rules.push((format!("{}.do", n), Rule { version: 0, stmts: st }));
+        deps.push(n);
+    }
+    for i in 0..nlong {
+        let n = format!("w{}", i);
+        rules.push((
+            format!("{}.do", n),
+            Rule {
+                version: 0,
+                stmts: vec![Stmt::Work(rng.range(100, 900))],
+            },
+        ));
+        deps.push(n);
+    }
+    if rng.chance(1, 2) {
+        rng.shuffle(&mut deps);
+    }
+    rules.push((
+        "top.do".into(),
+        Rule {
+            version: 0,
+            stmts: vec![Stmt::IfChange(deps)],
+        },
+    ));
+    let mut sc = Scenario {
+        family: "c07-cheat-prone".into(),
+        files: vec![("s0".to_string(), source_content("s0", 0))],
+        rules,
+        ..Default::default()
+    };
+    let mut c = redo_cmd(rng, "redo", &["top".to_string()], 1, 1000);
+    c.argv.retain(|a| !a.starts_with("-j"));
+    c.argv.insert(1, format!("-j{}", rng.range(2, 3)));
+    sc.history.push(Step::Cmds(vec![c]));
+    let mut knobs = Knobs::draw(rng);
+    if knobs.stall_pm == 0 && rng.chance(1, 2) {
+        knobs.stall_pm = 30;
+    }
+    Case {
+        property: "C07".into(),
+        seed,
+        scenario: sc,
+        knobs,
+        opts: PlayOpts::default(),
+        meta: BTreeMap::new(),
+    }
+}
+
 impl Property for C07 {
     fn id(&self) -> &'static str {
         "C07"
@@ -37,13 +107,17 @@ impl Property for C07 {
     fn rule(&self) -> &'static str {
         "one top-level redo / redo-ifchange (-j1..8, --shuffle on/off, random simulated script \
          durations) on diamonds, chains, fans with shared checksummed and always targets, optionally \
-         after a first build and an edit; oracle: at most one do-begin per target per invocation, and \
+         after a first build and an edit; every eighth scenario is the token-cheating shape of C08 (shared \
+         slow target, long-running siblings, log capture on); oracle: at most one do-begin per target per invocation, and \
          final bytes (noise stripped), exit status and structural DB view (Deps edges, \
          generated/override/failed/checksummed flags) equal those of the same history replayed with the \
          serial policy at -j1, and bytes equal the from-scratch evaluator; non-trivial = >=1 preemption \
          and >=1 script execution; distinct = (scenario, preemption signature)"
     }
     fn generate(&self, rng: &mut Rng, seed: u64, _tier: Tier, index: u64) -> Case {
+        if index % 8 == 7 {
+            return cheat_prone_case(rng, seed);
+        }
         let mut p = GraphParams::small(rng);
         p.n_targets = rng.range(3, 8) as usize;
         p.n_sources = rng.range(1, 3) as usize;
